@@ -197,6 +197,15 @@ def _init_worker():
     faulthandler.enable(file=_REAL_STDERR)
     sink = os.open(os.devnull, os.O_WRONLY)
     os.dup2(sink, 2)
+    # Broken code under test can grow a document without bound (e.g. a query
+    # that appends its own results to the list it reads); cap every worker's
+    # address space so that ends in MemoryError, not in an exhausted machine.
+    try:
+        import resource
+        cap = int(os.environ.get("VP_WORKER_MEM_GB") or "6") << 30
+        resource.setrlimit(resource.RLIMIT_AS, (cap, cap))
+    except Exception:
+        pass
 
 
 # -- main --------------------------------------------------------------------
